@@ -13,7 +13,7 @@ from .. import tdfref as R
 from . import kcommon
 
 PROP = "C04"
-RULE = ("states as in C03; per transition every live record (payload sha, format, comment, cdate, mdate) is compared "
+RULE = ("[plus every sequence of 1-3 removals on 6 files with an unused slot between live blocks] " +"states as in C03; per transition every live record (payload sha, format, comment, cdate, mdate) is compared "
         "with the model of the history and every decodable block is read back through get_block; payload sizes are "
         "pairwise distinct so each shift is visible; non-trivial = states with >= 2 live blocks")
 ASSUMPTIONS = [
